@@ -6,7 +6,7 @@ use toodee::*;
 pub const FAM: u32 = 1;
 
 #[derive(Clone, Copy, Debug, PartialEq)]
-pub enum DStep { Front, Back, Len }
+pub enum DStep { Front, Back, Len, Nth(u64), NthBack(u64) }
 #[derive(Clone, Copy, Debug, PartialEq)]
 pub enum DEnd { Drop, Forget }
 
@@ -40,14 +40,16 @@ pub enum Op {
 fn enc_drain(o: &mut Vec<u64>, st: &[DStep], f: DEnd) {
     o.push(st.len() as u64);
     for s in st {
-        o.push(match s { DStep::Front => 0, DStep::Back => 1, DStep::Len => 2 });
+        match s { DStep::Front => o.push(0), DStep::Back => o.push(1), DStep::Len => o.push(2),
+                  DStep::Nth(k) => o.extend([3, *k]), DStep::NthBack(k) => o.extend([4, *k]) }
     }
     o.push(match f { DEnd::Drop => 0, DEnd::Forget => 1 });
 }
 fn dec_drain(i: &mut std::slice::Iter<'_, u64>) -> (Vec<DStep>, DEnd) {
     let n = *i.next().unwrap();
     let st = (0..n)
-        .map(|_| match *i.next().unwrap() { 0 => DStep::Front, 1 => DStep::Back, _ => DStep::Len })
+        .map(|_| match *i.next().unwrap() { 0 => DStep::Front, 1 => DStep::Back, 2 => DStep::Len,
+                                            3 => DStep::Nth(*i.next().unwrap()), _ => DStep::NthBack(*i.next().unwrap()) })
         .collect();
     let f = if *i.next().unwrap() == 0 { DEnd::Drop } else { DEnd::Forget };
     (st, f)
@@ -128,6 +130,15 @@ fn run_drain<T: Elem, D: DoubleEndedIterator<Item = T> + ExactSizeIterator>(
                 None => ret.push(0),
             },
             DStep::Len => ret.extend([2, d.len() as u64]),
+            // Iterator::nth / DoubleEndedIterator::nth_back as the drain type provides them
+            DStep::Nth(k) => match d.nth(*k as usize) {
+                Some(x) => { ret.extend([1, x.val() as u64]); got.push(x) }
+                None => ret.push(0),
+            },
+            DStep::NthBack(k) => match d.nth_back(*k as usize) {
+                Some(x) => { ret.extend([1, x.val() as u64]); got.push(x) }
+                None => ret.push(0),
+            },
         }
     }
     match f {
@@ -427,6 +438,13 @@ fn all_scripts(n: u64, with_len: bool) -> Vec<Vec<DStep>> {
                 }
                 v.push(z);
             }
+            // the same split reached with one nth / nth_back jump per end
+            if f > 1 || b > 1 {
+                let mut j = vec![];
+                if f > 0 { j.push(DStep::Nth(f - 1)); }
+                if b > 0 { j.push(DStep::NthBack(b - 1)); }
+                v.push(j);
+            }
             if with_len {
                 let mut l = vec![DStep::Len];
                 for s in &a {
@@ -442,7 +460,8 @@ fn all_scripts(n: u64, with_len: bool) -> Vec<Vec<DStep>> {
 
 fn random_script(rng: &mut Rng, n: u64) -> Vec<DStep> {
     let k = rng.below(n + 3);
-    (0..k).map(|_| match rng.below(5) { 0 | 1 => DStep::Front, 2 | 3 => DStep::Back, _ => DStep::Len }).collect()
+    (0..k).map(|_| match rng.below(8) { 0 | 1 => DStep::Front, 2 | 3 => DStep::Back, 4 => DStep::Len,
+                                        5 => DStep::Nth(rng.below(n + 2)), 6 => DStep::NthBack(rng.below(n + 2)), _ => DStep::Len }).collect()
 }
 
 /// C07: every shape, index, consumption split; random interleavings
